@@ -76,6 +76,9 @@ struct Evt {
 	arg: u64,
 	#[serde(default = "ignore")]
 	onerr: String,
+	/// how long the error handler takes with the error this event causes (virtual ms)
+	#[serde(default)]
+	errhold: u64,
 	#[serde(default)]
 	jobops: Vec<JobOp>,
 }
@@ -150,7 +153,7 @@ async fn run_script(script: Script) -> Vec<Ev> {
 			.iter()
 			.map(|e| {
 				serde_json::json!({"id": e.id, "prio": e.prio, "verdict": e.verdict, "empty": e.empty,
-					"hold": e.hold, "act": e.act, "arg": e.arg, "onerr": e.onerr})
+					"hold": e.hold, "act": e.act, "arg": e.arg, "errhold": e.errhold, "onerr": e.onerr})
 			})
 			.collect(),
 	);
@@ -170,28 +173,50 @@ async fn run_script(script: Script) -> Vec<Ev> {
 		rec: rec.clone(),
 		verdicts: script.events.iter().map(|e| (e.id, e.verdict.clone())).collect(),
 	});
-	{
-		let rec = rec.clone();
-		let by_id = by_id.clone();
-		config.on_error(move |hook: watchexec::ErrorHook| {
-			let msg = format!("{:?}", hook.error);
-			let id: i64 = msg
-				.split("id=")
-				.nth(1)
-				.map(|s| s.chars().take_while(char::is_ascii_digit).collect::<String>())
-				.and_then(|s| s.parse().ok())
-				.unwrap_or(0);
+	fn error_id(msg: &str) -> i64 {
+		msg.split("id=")
+			.nth(1)
+			.map(|s| s.chars().take_while(char::is_ascii_digit).collect::<String>())
+			.and_then(|s| s.parse().ok())
+			.unwrap_or(0)
+	}
+	// the error handler; "replace" installs a fresh copy of itself from inside the call (the error
+	// that made it do so is handled by the old one, every later error by the new one)
+	fn make_error_handler(
+		rec: Recorder,
+		by_id: Arc<HashMap<i64, Evt>>,
+		config: Arc<Mutex<Option<Arc<Watchexec>>>>,
+		generation: i64,
+	) -> impl Fn(watchexec::ErrorHook) + Send + Sync + 'static {
+		move |hook: watchexec::ErrorHook| {
+			let id = error_id(&format!("{:?}", hook.error));
 			let onerr = by_id.get(&id).map_or("ignore".to_string(), |e| e.onerr.clone());
-			rec.rec(Ev::new("error").id(id).a(onerr.clone()));
+			let shown = if onerr == "replace" { "ignore" } else { onerr.as_str() };
+			rec.rec(Ev::new("error").id(id).a(shown).n(generation));
 			match onerr.as_str() {
 				"elevate" => hook.elevate(),
 				"critical" => hook.critical(CriticalError::External("verif".into())),
+				"replace" => {
+					if let Some(wx) = config.lock().unwrap().as_ref() {
+						wx.config.on_error(make_error_handler(rec.clone(), by_id.clone(), config.clone(), generation + 1));
+					}
+				}
 				_ => {}
 			}
-		});
+		}
+	}
+	let wx_slot: Arc<Mutex<Option<Arc<Watchexec>>>> = Arc::new(Mutex::new(None));
+	config.on_error(make_error_handler(rec.clone(), by_id.clone(), wx_slot.clone(), 0));
+	{
+		let by_id = by_id.clone();
+		watchexec::verif::set_error_delay(Some(Arc::new(move |err| {
+			let id = error_id(&format!("{err:?}"));
+			Duration::from_millis(by_id.get(&id).map_or(0, |e| e.errhold))
+		})));
 	}
 
 	let wx = Arc::new(Watchexec::with_config(config).expect("watchexec"));
+	*wx_slot.lock().unwrap() = Some(wx.clone());
 
 	// the handler: record the batch, apply the scripted actions, hold, return
 	let jobs_made: Arc<Mutex<HashMap<usize, Job>>> = Arc::new(Mutex::new(HashMap::new()));
@@ -374,6 +399,8 @@ async fn run_script(script: Script) -> Vec<Ev> {
 	rec.rec(Ev::new("end"));
 	rec.stop();
 	watchexec_supervisor::verif::set_thread_sink(None);
+	watchexec::verif::set_error_delay(None);
+	*wx_slot.lock().unwrap() = None;
 	rec.take()
 }
 
